@@ -34,7 +34,7 @@ def unsafe_sinks(ctx, fx, files, label):
     return n, k
 
 
-def accessors(ctx, fx, files, name_rx, rule, summaries=None):
+def accessors(ctx, fx, files, name_rx, rule, summaries=None, all_success=False):
     sm = summaries or taint.Summaries(fx)
     rx = re.compile(name_rx)
     k = 0
@@ -53,7 +53,7 @@ def accessors(ctx, fx, files, name_rx, rule, summaries=None):
             ps = [i for i in range(1, fn.nargs + 1) if fn.ty(i) in ('usize', 'u32', 'u64') and fn.local_name(i) in IDX]
             if ps:
                 ctx.analysed_fns.add(fid)
-                k += refusal.param_refusal(ctx, fx, fn, ps, rule, sm)
+                k += refusal.param_refusal(ctx, fx, fn, ps, rule, sm, all_success=all_success)
     ctx.instance(rule + ".accessors", k)
     return k
 
